@@ -10,7 +10,7 @@ def sh(cmd,cwd=None):
 if os.path.exists(WT): sh(f'git -C /repo worktree remove --force {WT}')
 rc,out=sh(f'git -C /repo worktree add -q --detach {WT} HEAD'); assert rc==0,out
 res={}
-for d in sorted(glob.glob('/tmp/seed-C*/[ab]')):
+for d in sorted(glob.glob(sys.argv[1] if len(sys.argv)>1 else '/tmp/seed-C*/[ab]')):
     sid=d.split('/')[2].replace('seed-','')+d[-1]
     patch=os.path.join(d,'ported.diff') if os.path.exists(os.path.join(d,'ported.diff')) else os.path.join(d,'patch.diff')
     r={'patch':os.path.basename(patch)}
@@ -29,4 +29,4 @@ for d in sorted(glob.glob('/tmp/seed-C*/[ab]')):
     if rc!=0: r['demo_without_patch_output']=out[-400:]
     res[sid]=r; print(sid,r,flush=True)
 sh(f'git -C /repo worktree remove --force {WT}')
-json.dump(res,open('/tmp/seedverify.json','w'),indent=1)
+json.dump(res,open(sys.argv[2] if len(sys.argv)>2 else '/tmp/seedverify.json','w'),indent=1)
